@@ -161,6 +161,9 @@ class Characteristics:
     @adc_bit_resolution.setter
     def adc_bit_resolution(self, value: int) -> None:
         """Set bit resolution of the Analog-Digital Converter."""
+        if not (4 <= value <= 64):
+            raise ValueError("'adc_bit_resolution' must be between 4 and 64.")
+
         self._adc_bit_resolution = value
 
     @property
@@ -176,6 +179,12 @@ class Characteristics:
     @adc_voltage_range.setter
     def adc_voltage_range(self, value: tuple[float, float]) -> None:
         """Set voltage range of the Analog-Digital Converter."""
+        if not isinstance(value, Sequence):
+            raise TypeError("Voltage range must have length of 2.")
+
+        if len(value) != 2:
+            raise ValueError("Voltage range must have length of 2.")
+
         self._adc_voltage_range = value
 
     @property
